@@ -268,6 +268,25 @@ EXTRA2 = {
     "C19": " Rounds 4-5: 257-1100 versions with steps up to 11."
 }
 
+EXTRA3 = {
+    "C01": " Rounds 6-7: baseline files (and feeds) holding more states than the config names.",
+    "C02": " Rounds 6-7: several states reusing district labels with groups of very different size (gaussian).",
+    "C03": " Rounds 6-7: the floor is also taken from the feed itself (every feed row attributable to a group), null cells.",
+    "C04": " Rounds 6-7: direct frames with mask-slice / permuted / string row labels; a result that is not one bound per unit is a violation.",
+    "C06": " Rounds 6-7: one called or stop-listed contest per district case (preferably a name that is a prefix of another contest's name); its neighbours must keep the strict ordering.",
+    "C07": " Rounds 6-7: call lists naming a configured state that has no unit in the run; repeated entries inside a list.",
+    "C08": " Rounds 6-7: repeated entries inside the call lists.",
+    "C09": " Rounds 6-7: null in a count column the run does not use; baseline files with extra states.",
+    "C10": " Rounds 6-7: feed units unknown to the historical file in the middle of the feed; units of states the config does not name as victims.",
+    "C12": " Rounds 6-7: baseline frame edited in place between two runs; a bootstrap margin run followed by the case's own request on one feed frame object.",
+    "C13": " Rounds 6-7: integer grouping columns with three estimands.",
+    "C14": " Rounds 6-7: the gate entered through HistoricalModelClient.get_historical_evaluation; feeds listing only the units reported so far; contests smaller than the minimum that are complete.",
+    "C17": " Rounds 6-7: stored shares missing on zero-vote versions.",
+    "C18": " Rounds 6-7: children that drive the command line (elexmodel.cli through click's test runner) for every subset of --save_output with and without --national_summary; a child whose every run ends in the same model error is counted, not judged.",
+    "C19": " Rounds 6-7: a second handler for another window built before the first is used; an oldest version with the id 'null'; a download request without version id is a violation.",
+    "C20": " Rounds 6-7: a one-voter unit next to a unit scaled by 3000 (weight ratios below 1e-6)."
+}
+
 NOT_YET = {}
 
 
@@ -289,7 +308,7 @@ def main():
             evidence_file=f"/verif/evidence/{pid}.json",
             replay_cmd_template=f"{PY} -m vlib.check {pid} --replay {{path}}",
             engine="vlib",
-            level_claimed=dict(category=c["category"], text=c["text"] + EXTRA.get(pid, "") + EXTRA2.get(pid, ""), design_ref=c["ref"] + " and 9.4"),
+            level_claimed=dict(category=c["category"], text=c["text"] + EXTRA.get(pid, "") + EXTRA2.get(pid, "") + EXTRA3.get(pid, ""), design_ref=c["ref"] + " and 9.4"),
             level_note=c["note"],
             technique=c["technique"],
         ))
